@@ -813,6 +813,227 @@ Proof.
   fold c. rewrite Hw1. apply Rmult_1_l.
 Qed.
 
+(* ------------------------------------------------------------------ the triple list of FilterConv is well-formed *)
+Lemma ext3_idx_range {K} (c : padcfg K) A B D : dims_ok c -> 0 <= ext3_idx c A B D < nel (pg c).
+Proof.
+  intros (Dx & Dy & Dz).
+  assert (Hn : 1 <= nel (pg c)) by (unfold nel, nz1; nia).
+  unfold ext3_idx.
+  destruct (ext1 (mz0 c) (mz1 c) (sz1 c) D) as [d'|] eqn:Ed; [|lia].
+  destruct (ext1 (my0 c) (my1 c) (sy1 c) B) as [b'|] eqn:Eb; [|lia].
+  destruct (ext1 (mx0 c) (mx1 c) (sx1 c) A) as [a'|] eqn:Ea; [|lia].
+  apply ext1_idx_range in Ed; [|unfold sz1; lia].
+  apply ext1_idx_range in Eb; [|unfold sy1; lia].
+  apply ext1_idx_range in Ea; [|unfold sx1; lia].
+  apply elem_range; unfold sx1, sy1, sz1, nz1 in *; lia.
+Qed.
+
+Lemma in_positions nx ny nz a b d : In (a, b, d) (positions nx ny nz) <-> 0 <= a < nx /\ 0 <= b < ny /\ 0 <= d < nz.
+Proof.
+  unfold positions. rewrite in_flat_map. split.
+  - intros (i & Hi & H2). apply in_flat_map in H2 as (j & Hj & H3). apply in_map_iff in H3 as (k & E & Hk).
+    inversion E; subst. apply in_zrange in Hi, Hj, Hk. auto.
+  - intros (Ha & Hb & Hd). exists a. split; [apply in_zrange; exact Ha|].
+    apply in_flat_map. exists b. split; [apply in_zrange; exact Hb|].
+    apply in_map_iff. exists d. split; [reflexivity | apply in_zrange; exact Hd].
+Qed.
+
+Section Triples.
+  Context {K : Type} `{Num K}.
+  Variable f : @fconv K.
+  Let c := fc_pad f.
+  Hypothesis Hp : pads_nonneg c.
+  Hypothesis Hd : dims_ok c.
+  Hypothesis Hok : pad_ok c.
+  Hypothesis Hodd : shape3 (fc_w f) = (2 * ppx c + 1, 2 * ppy c + 1, 2 * ppz c + 1).
+
+  (* every destination and every source of the triple list is an element number: the adjoint theorem of
+     Base/SparseLin.v (apply_adjoint) applies to FilterConv *)
+  Theorem fc_triples_bounded : tbounded (Z.to_nat (nel (pg c))) (Z.to_nat (nel (pg c))) (fc_triples f).
+  Proof.
+    pose proof (sx1_nelx f Hd) as Ex. pose proof (sy1_nely f Hd) as Ey. pose proof (sz1_nz1 f) as Ez. fold c in Ex, Ey, Ez.
+    unfold tbounded. apply Forall_forall. intros [[ds sr] cf] Hin.
+    unfold fc_triples in Hin. fold c in Hin. cbv zeta in Hin. rewrite Hodd in Hin.
+    apply in_flat_map in Hin as ([[a b] d] & Hpos & Hin).
+    apply in_positions in Hpos as (Ha & Hb & Hdd).
+    apply in_flat_map in Hin as ([[qa qb] qc] & Hq & Hin).
+    apply in_positions in Hq as (Hqa & Hqb & Hqc).
+    destruct (ov_any _ _ _ _) in Hin; [destruct Hin|].
+    destruct Hin as [E|[]].
+    pose proof (f_equal (fun t : nat * nat * K => fst (fst t)) E) as E1.
+    pose proof (f_equal (fun t : nat * nat * K => snd (fst t)) E) as E2.
+    cbn [fst snd] in E1, E2. subst ds sr. clear E.
+    split.
+    - unfold el3d_orig. rewrite tab3_nth3 by assumption.
+      pose proof (elem_range (pg c) a b d ltac:(lia) ltac:(lia) ltac:(lia)). lia.
+    - rewrite (el3d_pad_nth3 c Hp Hok) by lia.
+      pose proof (ext3_idx_range c (a + (2 * ppx c + 1 - 1) - qa - ppx c) (b + (2 * ppy c + 1 - 1) - qb - ppy c)
+                    (d + (2 * ppz c + 1 - 1) - qc - ppz c) Hd). lia.
+  Qed.
+End Triples.
+
+(* ------------------------------------------------------------------ the triple-list form of the response *)
+Section Linearised.
+  Context {K : Type} `{Num K}.
+  Hypothesis Rth : ring_theory (@nzero K _) none_ nadd nmul nsub nopp (@eq K).
+  Add Ring KringL : Rth.
+
+  (* entry e of apply T m x: the sum of the contributions of the triples with destination e *)
+  Lemma apply_vget (T : list (@triple K)) m (x : list K) e : (e < m)%nat ->
+    vget (apply T m x) e =
+    nsum (map (fun t : @triple K => match t with (d, s, c) => if Nat.eqb d e then nmul c (vget x s) else nzero end) T).
+  Proof.
+    intros He. unfold apply.
+    rewrite fold_left_ext_fn with
+      (G := fun y (t : @triple K) => vaddat y (fst (fst t)) (nmul (snd t) (vget x (snd (fst t)))))
+      by (intros y [[d s] c]; reflexivity).
+    rewrite (scatter_fold Rth) by (unfold vzero; rewrite repeat_length; exact He).
+    rewrite vget_vzero.
+    rewrite (map_ext _ (fun t : @triple K => match t with (d, s, c) => if Nat.eqb d e then nmul c (vget x s) else nzero end))
+      by (intros [[d s] c]; reflexivity).
+    ring.
+  Qed.
+
+  (* the value written by the last matching override does not depend on the base value *)
+  Lemma apply_ovs_any (ovs : list (override K)) i j k base :
+    apply_ovs ovs i j k base = if ov_any ovs i j k then apply_ovs ovs i j k nzero else base.
+  Proof.
+    unfold apply_ovs, ov_any. revert base. induction ovs as [|o ovs IH] using rev_ind; intros base; [reflexivity|].
+    rewrite !fold_left_app, existsb_app. cbn [fold_left existsb].
+    destruct (ov_hit o i j k) as [v|]; cbn [orb].
+    - rewrite orb_true_r. reflexivity.
+    - rewrite orb_false_r. apply IH.
+  Qed.
+
+  Variable f : @fconv K.
+  Let c := fc_pad f.
+  Hypothesis Hp : pads_nonneg c.
+  Hypothesis Hd : dims_ok c.
+  Hypothesis Hok : pad_ok c.
+  Hypothesis Hodd : shape3 (fc_w f) = (2 * ppx c + 1, 2 * ppy c + 1, 2 * ppz c + 1).
+
+  Let ovs := pad_overrides c ++ fc_uov f.
+
+  Lemma elem_eqb_coords a b d i j k :
+    0 <= a < nelx (pg c) -> 0 <= b < nely (pg c) -> 0 <= d < nz1 (pg c) ->
+    0 <= i < nelx (pg c) -> 0 <= j < nely (pg c) -> 0 <= k < nz1 (pg c) ->
+    Nat.eqb (Z.to_nat (elemnumber (pg c) i j k)) (Z.to_nat (elemnumber (pg c) a b d)) = (i =? a) && (j =? b) && (k =? d).
+  Proof.
+    intros Ha Hb Hdd Hi Hj Hk. pose proof (dims_wf f Hd) as Hwf. fold c in Hwf.
+    pose proof (elem_range (pg c) a b d Ha Hb Hdd). pose proof (elem_range (pg c) i j k Hi Hj Hk).
+    destruct (Nat.eqb_spec (Z.to_nat (elemnumber (pg c) i j k)) (Z.to_nat (elemnumber (pg c) a b d))) as [E|E].
+    - assert (E' : elemnumber (pg c) i j k = elemnumber (pg c) a b d) by lia.
+      assert (E'' : i = a /\ j = b /\ k = d) by (apply (elem_inj (pg c)); try assumption; lia).
+      destruct E'' as (E1 & E2 & E3). subst.
+      rewrite !Z.eqb_refl. reflexivity.
+    - destruct (Z.eqb_spec i a); destruct (Z.eqb_spec j b); destruct (Z.eqb_spec k d); cbn [andb]; try reflexivity.
+      subst. congruence.
+  Qed.
+
+  Theorem fc_response_lin_at (x : list K) a b d :
+    Z.of_nat (length x) = nel (pg c) ->
+    0 <= a < nelx (pg c) -> 0 <= b < nely (pg c) -> 0 <= d < nz1 (pg c) ->
+    zget (fc_response_lin f x) (elemnumber (pg c) a b d) = zget (fc_response f x) (elemnumber (pg c) a b d).
+  Proof.
+    intros Hx Ha Hb Hdd.
+    pose proof (sx1_nelx f Hd) as Ex. pose proof (sy1_nely f Hd) as Ey. pose proof (sz1_nz1 f) as Ez. fold c in Ex, Ey, Ez.
+    pose proof (elem_range (pg c) a b d Ha Hb Hdd) as Hr.
+    rewrite (fc_response_at Rth f Hp Hd Hok Hodd) by assumption.
+    unfold fc_response_lin, zget.
+    change (nth (Z.to_nat (elemnumber (pg c) a b d)) ?l nzero) with (vget l (Z.to_nat (elemnumber (pg c) a b d))).
+    assert (Laff : length (fc_affine f (length x)) = length x).
+    { unfold fc_affine. fold c. cbv zeta. destruct (shape3 (fc_w f)) as [[kx ky] kz].
+      rewrite fold_left_length_pres; [unfold vzero; apply repeat_length|].
+      intros y [[i j] k]. apply vaddat_length. }
+    rewrite (vget_vadd Rth) by (rewrite apply_length, Laff; reflexivity).
+    (* linear part *)
+    rewrite apply_vget by lia.
+    unfold fc_triples. fold c. fold ovs. cbv zeta. rewrite Hodd.
+    rewrite (nsum_flat_map Rth). rewrite (nsum_positions Rth).
+    rewrite (zsum3_ext (sx1 c) (sy1 c) (sz1 c) _ (fun i j k =>
+               if (i =? a) && (j =? b) && (k =? d) then
+                 zsum3 (2 * ppx c + 1) (2 * ppy c + 1) (2 * ppz c + 1) (fun qa qb qc =>
+                   if ov_any ovs (i + (2 * ppx c + 1 - 1) - qa) (j + (2 * ppy c + 1 - 1) - qb) (k + (2 * ppz c + 1 - 1) - qc)
+                   then nzero
+                   else nmul (wget (fc_w f) qa qb qc)
+                          (zget x (nth3 (el3d_pad c) (i + (2 * ppx c + 1 - 1) - qa) (j + (2 * ppy c + 1 - 1) - qb)
+                                     (k + (2 * ppz c + 1 - 1) - qc) 0)))
+               else nzero)).
+    2:{ intros i j k Hi Hj Hk. rewrite (nsum_flat_map Rth). rewrite (nsum_positions Rth).
+        unfold el3d_orig. rewrite tab3_nth3 by assumption.
+        rewrite <- (elem_eqb_coords a b d i j k) by lia.
+        destruct (Nat.eqb (Z.to_nat (elemnumber (pg c) i j k)) (Z.to_nat (elemnumber (pg c) a b d))) eqn:E.
+        - apply zsum3_ext. intros qa qb qc _ _ _.
+          destruct (ov_any ovs _ _ _); cbn [map nsum fold_right]; [reflexivity|].
+          rewrite E. unfold zget, vget. ring.
+        - rewrite (zsum3_ext _ _ _ _ (fun _ _ _ => nzero)).
+          + unfold zsum3. rewrite (zsum_ext _ _ (fun _ => nzero)); [apply (zsum_zero Rth)|].
+            intros. rewrite (zsum_ext _ _ (fun _ => nzero)); [apply (zsum_zero Rth)|]. intros. apply (zsum_zero Rth).
+          + intros qa qb qc _ _ _. destruct (ov_any ovs _ _ _); cbn [map nsum fold_right]; [reflexivity|].
+            rewrite E. ring. }
+    rewrite (zsum3_single Rth) by lia.
+    (* affine part *)
+    unfold fc_affine. fold c. fold ovs. cbv zeta. rewrite Hodd.
+    rewrite fold_left_ext_fn with
+      (G := fun y (t : Z * Z * Z) => vaddat y (match t with (i, j, k) => Z.to_nat (nth3 (el3d_orig c) i j k 0) end)
+              (match t with (i, j, k) =>
+                 zsum3 (2 * ppx c + 1) (2 * ppy c + 1) (2 * ppz c + 1) (fun qa qb qc =>
+                   if ov_any ovs (i + (2 * ppx c + 1 - 1) - qa) (j + (2 * ppy c + 1 - 1) - qb) (k + (2 * ppz c + 1 - 1) - qc)
+                   then nmul (wget (fc_w f) qa qb qc)
+                          (apply_ovs ovs (i + (2 * ppx c + 1 - 1) - qa) (j + (2 * ppy c + 1 - 1) - qb)
+                             (k + (2 * ppz c + 1 - 1) - qc) nzero)
+                   else nzero) end))
+      by (intros y [[i j] k]; reflexivity).
+    rewrite (scatter_fold Rth) by (unfold vzero; rewrite repeat_length; lia).
+    rewrite vget_vzero. rewrite (nsum_positions Rth).
+    rewrite (zsum3_ext (sx1 c) (sy1 c) (sz1 c) _ (fun i j k =>
+               if (i =? a) && (j =? b) && (k =? d) then
+                 zsum3 (2 * ppx c + 1) (2 * ppy c + 1) (2 * ppz c + 1) (fun qa qb qc =>
+                   if ov_any ovs (i + (2 * ppx c + 1 - 1) - qa) (j + (2 * ppy c + 1 - 1) - qb) (k + (2 * ppz c + 1 - 1) - qc)
+                   then nmul (wget (fc_w f) qa qb qc)
+                          (apply_ovs ovs (i + (2 * ppx c + 1 - 1) - qa) (j + (2 * ppy c + 1 - 1) - qb)
+                             (k + (2 * ppz c + 1 - 1) - qc) nzero)
+                   else nzero)
+               else nzero)).
+    2:{ intros i j k Hi Hj Hk. unfold el3d_orig. rewrite tab3_nth3 by assumption.
+        rewrite (elem_eqb_coords a b d i j k) by lia. reflexivity. }
+    rewrite (zsum3_single Rth) by lia.
+    (* put the two sums together *)
+    unfold fc_y3d_at, conv_valid_at. fold c. rewrite Hodd.
+    replace (nadd nzero (zsum3 (2 * ppx c + 1) (2 * ppy c + 1) (2 * ppz c + 1) (fun qa qb qc =>
+               if ov_any ovs (a + (2 * ppx c + 1 - 1) - qa) (b + (2 * ppy c + 1 - 1) - qb) (d + (2 * ppz c + 1 - 1) - qc)
+               then nmul (wget (fc_w f) qa qb qc)
+                      (apply_ovs ovs (a + (2 * ppx c + 1 - 1) - qa) (b + (2 * ppy c + 1 - 1) - qb)
+                         (d + (2 * ppz c + 1 - 1) - qc) nzero)
+               else nzero)))
+      with (zsum3 (2 * ppx c + 1) (2 * ppy c + 1) (2 * ppz c + 1) (fun qa qb qc =>
+               if ov_any ovs (a + (2 * ppx c + 1 - 1) - qa) (b + (2 * ppy c + 1 - 1) - qb) (d + (2 * ppz c + 1 - 1) - qc)
+               then nmul (wget (fc_w f) qa qb qc)
+                      (apply_ovs ovs (a + (2 * ppx c + 1 - 1) - qa) (b + (2 * ppy c + 1 - 1) - qb)
+                         (d + (2 * ppz c + 1 - 1) - qc) nzero)
+               else nzero)) by ring.
+    unfold zsum3.
+    rewrite <- (zsum_add Rth). apply zsum_ext. intros qa _.
+    rewrite <- (zsum_add Rth). apply zsum_ext. intros qb _.
+    rewrite <- (zsum_add Rth). apply zsum_ext. intros qc _.
+    unfold xpad_at. fold ovs. rewrite (apply_ovs_any ovs _ _ _ (zget x _)).
+    destruct (ov_any ovs _ _ _); ring.
+  Qed.
+End Linearised.
+
+(* adjointness of the triple-list model: <w, T x> = <T^T w, x>  (instance of SparseLin.apply_adjoint) *)
+Theorem fc_triples_adjoint {K : Type} `{Num K} :
+  ring_theory (@nzero K _) none_ nadd nmul nsub nopp (@eq K) ->
+  forall f : @fconv K, let c := fc_pad f in
+  pads_nonneg c -> dims_ok c -> pad_ok c ->
+  shape3 (fc_w f) = (2 * ppx c + 1, 2 * ppy c + 1, 2 * ppz c + 1) ->
+  forall w x : list K, length w = Z.to_nat (nel (pg c)) -> length x = Z.to_nat (nel (pg c)) ->
+  dot w (apply (fc_triples f) (Z.to_nat (nel (pg c))) x) = dot (fc_sensitivity_lin f (Z.to_nat (nel (pg c))) w) x.
+Proof.
+  intros Rth f c Hp Hd Hok Hodd w x Hw Hx. unfold fc_sensitivity_lin.
+  apply (apply_adjoint Rth); try assumption. apply fc_triples_bounded; assumption.
+Qed.
+
 (* ------------------------------------------------------------------ set_filter_radius never pads beyond the domain *)
 Lemma radius_delem_le (r dx : Q) (n : Z) : radius_delem r dx n <= n.
 Proof. unfold radius_delem. apply Z.le_min_l. Qed.
